@@ -58,4 +58,19 @@ TEXT = {
   "note": "trusted: Lean kernel; model = code by differential run; not modelled: widening_thresholds/transform; discrete_domain add/remove/diff/rename only tested",
   "technique": "Lean 4 refinement proofs (tree -> finite map) + exact differential correspondence with a spec-map oracle",
  },
+ "C02": {
+  "level": "proof (partial): Lean theorems over the model of assert_property_checker / intra_checker — a safe verdict (the invariant entails the condition, or assuming the negation is bottom) implies no state of the invariant fails the assert, an unreachable verdict implies no state reaches it, for numeric and boolean assertions, lifted to whole blocks and whole programs on top of C01.program_sound (C02.fwd_checker_sound_engine). Tied to the code by the program-level refinement harness: the REAL forward and forward+backward analyzers + checker run on generated programs over 6 domains, and the Lean driver searches concrete executions that fail a safe assert or reach an unreachable one. The forward+backward discharge rule (dominator-based) and the inter-procedural checker are only tested",
+  "note": "trusted: Lean kernel; executable IR semantics (CrabModel/IR) as the meaning of programs; sampling of executions; domain contracts of shipped domains not proved",
+  "technique": "Lean 4 theorems (checker decision rules, program-level soundness on top of the engine theorem) + refinement correspondence by concrete execution search",
+ },
+ "C17": {
+  "level": "proof: Lean theorems over the transcription of cfg::simplify (DFS block merging, unreachable/useless block removal), dead_code_elimination and lower_safe_assertions: C17.simplify_preserves / simplify_wf (exit-reaching executions, entry/exit, well-formedness preserved, for every well-formed CFG whose exit has no successor), merge_blocks_preserves, remove_unreachable_preserves, dce_preserves (under the stated side condition that removed definitions cannot trap, with a counterexample showing it is needed), lower_preserves (unconditional). Tied to the code by exact comparison of the transformed CFG with the model's and by differential execution of original vs implementation-transformed programs on 1.2*10^4 generated programs per run",
+  "note": "trusted: Lean kernel; TIR semantics; block order of the kill/gen iterator read from the implementation; 'simplify never raises CRAB_ERROR' is tested, the theorems are conditional on success",
+  "technique": "Lean 4 simulation proofs over a transcription of the transformations + exact correspondence + differential execution",
+ },
+ "C18": {
+  "level": "proof (partial): C18.dead_irrelevant / agree_on_live (specification liveness: two executions from states differing only in a dead variable produce the same observable trace, all programs, all paths), C18.coded_sound (the liveness equations as coded, for every block order, contain the specification liveness on every well-formed CFG) hence coded_dead_irrelevant; old behaviours kept as counterexample theorems behind explicit flags. Tied to the code by comparing liveness_analysis results with the model and by paired executions. The assertion crawler (assertion-dependence facts) is not modelled nor driven yet",
+  "note": "trusted: Lean kernel; TIR semantics; block order input",
+  "technique": "Lean 4 simulation proof + exact correspondence + paired concrete executions",
+ },
 }
